@@ -13,7 +13,7 @@ LEVEL = "exploration"
 RULE = (
     "generated graphs with nesting depth 0-3 (convex groups wrapped repeatedly, with renamed wrapper inputs/outputs and "
     "inner bindings), gates (incl. END), emit/wait_for ordering edges, inputs consumed at several depths, the same "
-    "Graph object nested twice; for each graph ALL valid expansion states x both output modes taken from "
+    "Graph object nested twice, plain nodes whose name merely extends a sibling container's name; for each graph ALL valid expansion states x both output modes taken from "
     "render_graph()['meta'] and Mermaid for every depth 0..max (parsed from the source). Oracles: self-consistency "
     "(same state keys in nodesByState and edgesByState, every edge endpoint a declared node of that state, every visible "
     "id once; every Mermaid edge endpoint declared); faithfulness against leaf-level dependencies computed from the "
@@ -482,7 +482,31 @@ def gen_viz_graph(rng):
             res = gen.nest_once(rng, cur, f"sub{d}", allow_select=False)
             if res:
                 cur = res[1]
+    if rng.random() < 0.4:
+        prefix_sibling(rng, cur)
     return cur
+
+
+def prefix_sibling(rng, prog):
+    """Give a plain sibling of a nested-graph node a name that merely EXTENDS the container's name
+    ('sub0' next to 'sub0_x'): hierarchical ids must be compared component-wise, not as string prefixes."""
+    subs = [ns for ns in prog["nodes"] if ns["k"] == "sub"]
+    for sub in subs:
+        prefix_sibling(rng, sub["prog"])
+    if not subs:
+        return
+    referenced = set()
+    for ns in prog["nodes"]:
+        if ns["k"] in ("ifelse", "route"):
+            referenced |= set(ref.gate_targets(ns))
+    referenced |= set(prog.get("entry") or [])
+    sub = rng.choice(subs)
+    sub_io = {e for _, e in ref.node_inputs(sub)} | {e for _, e in ref.node_outputs(sub)}
+    sibs = [ns for ns in prog["nodes"] if ns["k"] == "fn" and ns["name"] not in referenced and not ns["name"].startswith(sub["name"])]
+    related = [ns for ns in sibs if ({e for _, e in ref.node_inputs(ns)} & sub_io)]
+    pool = related or sibs
+    if pool and not prog.get("edges"):
+        rng.choice(pool)["name"] = sub["name"] + rng.choice(["_x", "x", "2"])
 
 
 def same_graph_twice(rng):
